@@ -219,6 +219,131 @@ func (e *Exec) evalSpec(st *State, cl *Clause) Term {
 	return t
 }
 
+// conjuncts splits a clause expression into the conjuncts of its conclusion: A && B, __implies(P, A && B) and
+// nested combinations; quantifiers are not entered.
+func conjuncts(x ast.Expr) []ast.Expr {
+	switch v := x.(type) {
+	case *ast.ParenExpr:
+		return conjuncts(v.X)
+	case *ast.BinaryExpr:
+		if v.Op == token.LAND {
+			return append(conjuncts(v.X), conjuncts(v.Y)...)
+		}
+	case *ast.CallExpr:
+		if id, ok := v.Fun.(*ast.Ident); ok && id.Name == "__implies" && len(v.Args) == 2 {
+			var out []ast.Expr
+			for _, c := range conjuncts(v.Args[1]) {
+				out = append(out, &ast.CallExpr{Fun: v.Fun, Args: []ast.Expr{v.Args[0], c}})
+			}
+			return out
+		}
+	}
+	return []ast.Expr{x}
+}
+
+// evalSpecParts evaluates the conjuncts of a clause separately (nil if it has only one).
+func (e *Exec) evalSpecParts(st *State, cl *Clause) []Term {
+	cs := conjuncts(cl.Expr)
+	if len(cs) < 2 {
+		return nil
+	}
+	var out []Term
+	for _, c := range cs {
+		if ps := e.ghostCallParts(st, c); len(ps) > 1 {
+			out = append(out, ps...)
+			continue
+		}
+		sub := st.Clone()
+		e.spec++
+		t := e.eval(sub, c)
+		e.spec--
+		if t.Sort != SBool {
+			return nil
+		}
+		out = append(out, t)
+	}
+	return out
+}
+
+// ghostCallParts: if x is (an implication whose conclusion is) a call of a single-return ghost predicate
+// whose body is a conjunction, evaluate the conjuncts of the body separately.
+func (e *Exec) ghostCallParts(st *State, x ast.Expr) []Term {
+	var hyp ast.Expr
+	if c, ok := x.(*ast.CallExpr); ok {
+		if id, ok := c.Fun.(*ast.Ident); ok && id.Name == "__implies" && len(c.Args) == 2 {
+			hyp = c.Args[0]
+			x = c.Args[1]
+		}
+	}
+	for {
+		if p, ok := x.(*ast.ParenExpr); ok {
+			x = p.X
+		} else {
+			break
+		}
+	}
+	call, ok := x.(*ast.CallExpr)
+	if !ok {
+		return nil
+	}
+	var fn *types.Func
+	var recvExpr ast.Expr
+	switch f := call.Fun.(type) {
+	case *ast.Ident:
+		fn, _ = e.objOf(f).(*types.Func)
+	case *ast.SelectorExpr:
+		if sel := e.selectionOf(f); sel != nil && sel.Kind() == types.MethodVal {
+			fn, _ = sel.Obj().(*types.Func)
+			recvExpr = f.X
+		} else {
+			fn, _ = e.objOf(f.Sel).(*types.Func)
+		}
+	}
+	if fn == nil {
+		return nil
+	}
+	fi := e.P.Funcs[fn]
+	if fi == nil || fi.Decl.Body == nil || len(fi.Decl.Body.List) != 1 || !isReturn(fi.Decl.Body.List[0]) {
+		return nil
+	}
+	if pc := e.P.PC[pkgPathOf(fn)]; pc != nil && (pc.Opaque[fi.Key] || pc.Uninterp[fi.Key] || pc.GhostFields[fn.Name()]) {
+		return nil
+	}
+	ret := fi.Decl.Body.List[0].(*ast.ReturnStmt)
+	if len(ret.Results) != 1 {
+		return nil
+	}
+	cs := conjuncts(ret.Results[0])
+	if len(cs) < 2 {
+		return nil
+	}
+	e.spec++
+	defer func() { e.spec-- }()
+	sub := st.Clone()
+	var recv Term
+	if recvExpr != nil {
+		recv = e.eval(sub, recvExpr)
+	}
+	sig := fn.Type().(*types.Signature)
+	args := e.evalArgs(sub, call, sig)
+	var h Term = True
+	if hyp != nil {
+		h = e.eval(sub, hyp)
+	}
+	f := e.pushFrame(fi, fi.Pkg.TypesInfo)
+	defer e.popFrame()
+	e.bindSignature(sub, f, fi.Decl, fi.Decl.Type, recv, args)
+	var out []Term
+	for _, c := range cs {
+		t := e.eval(sub.Clone(), c)
+		if t.Sort != SBool {
+			return nil
+		}
+		out = append(out, Implies(h, t))
+	}
+	return out
+}
+
 func (e *Exec) evalSpecExpr(st *State, x ast.Expr) Term {
 	sub := st.Clone()
 	e.spec++
@@ -317,6 +442,9 @@ func (e *Exec) evalGhostBuiltin(st *State, call *ast.CallExpr, name string) Term
 		}
 		v := e.eval(st, call.Args[0])
 		return And(Gt(v, old.Alloc), Le(v, st.Alloc))
+	case "__allocated":
+		v := e.eval(st, call.Args[0])
+		return And(Ge(v, Int(0)), Le(v, st.Alloc))
 	case "__alloc0":
 		old := e.specOld
 		if old == nil {
@@ -1057,7 +1185,11 @@ func (e *Exec) callContract(st *State, call *ast.CallExpr, fn *types.Func, c *Co
 		e.specOld = savedOld
 		{
 			name := fmt.Sprintf("%s/pre/%s#%d/%s", e.fnName(), c.Key, ord, r.Label)
-			e.Ctx.AddObligation(e.Fn.FullName(), "pre", name, st.PC, t, e.pos(call.Pos()))
+			o := e.Ctx.AddObligation(e.Fn.FullName(), "pre", name, st.PC, t, e.pos(call.Pos()))
+			savedOld2 := e.specOld
+			e.specOld = env
+			o.SetParts(e.evalSpecParts(env, r))
+			e.specOld = savedOld2
 		}
 		e.assume(st, t)
 		e.assume(env, t)
